@@ -135,3 +135,74 @@ def meek_iterate_elect_loop():
     invariant(implies(iStatus == 'elected', it >= 1))
     invariant(implies(it >= 1, iStatus == 'elected'))
     invariant(or_(iStatus == 'elected', iStatus == 'none'))
+
+
+# --------------------------------------------------------------------------------------------- QPQ count()
+QpqRule = cls('droop.rules.qpq.Rule')
+
+
+@contract('droop.election.Election.Ballot.restart', props=['C09', 'C06'])
+def ballot_restart(self: 'Ballot', weight: 'val'):
+    "QPQ restart: the ballot goes back to its first preference with the given weight"
+    ensures(self.index == 0)
+    ensures(self.weight == weight)
+    modifies(self, 'index', 'weight', 'residual')
+
+
+@contract('droop.rules.qpq.Rule.count.<locals>.transfer', props=['C09', 'C06'], free=FREE_EC)
+def qpq_transfer(ballot: 'Ballot'):
+    "the ballot moves on to its first hopeful candidate (or becomes inactive); nothing else changes"
+    requires(same_ref(C, E.C))
+    requires(is_the_election(E))
+    requires(is_ballot(ballot))
+    requires(and_(ballot.index >= 0, ballot.index <= seq_len(ballot.ranking)))
+    ensures(ballot.index >= old(ballot.index))
+    ensures(ballot.index <= seq_len(ballot.ranking))
+    ensures(implies(ballot.index < seq_len(ballot.ranking), cand_by_cid(seq_at(ballot.ranking, ballot.index)).state == 'hopeful'))
+    modifies(ballot, 'index')
+
+
+@loops('droop.rules.qpq.Rule.count.<locals>.transfer', anchor='while#1')
+def qpq_transfer_loop(ballot):
+    invariant(ballot.index >= old(ballot.index))
+    invariant(ballot.index <= seq_len(ballot.ranking))
+    variant(seq_len(ballot.ranking) - ballot.index)
+
+
+@contract('droop.rules.qpq.Rule.count.<locals>.countComplete', props=['C01'], free=FREE_EC)
+def qpq_count_complete() -> 'bool':
+    requires(same_ref(C, E.C))
+    requires(is_the_election(E))
+    left = E.electionProfile.nSeats - ghost('nE')
+    ensures(result == or_(left <= 0, ghost('nH') <= left))
+    modifies()
+
+
+@contract('droop.rules.qpq.Rule.count', props=['C01', 'C09'], site_props=['C07'], instances=['real'])
+def qpq_count(self: 'QpqRule'):
+    """QPQ (exact rational arithmetic is forced): status changes go through elect / defeat of a hopeful candidate and, after
+    an exclusion only, unelect of every elected candidate (the restart); the count ends with nobody hopeful and the seats
+    filled; the rounds terminate (lexicographic variant: candidates not yet excluded, then hopefuls).  That the divisions
+    never divide by zero rests on the QPQ ledger invariant (fractions of candidates elected by inactive ballots stay below
+    seats+1), which is checked by the bounded stand-in only: ZeroDivisionError is declared possible here."""
+    E = self.E
+    requires(count_entry(E))
+    raises(ZeroDivisionError)
+    ensures(ghost('nH') == 0, name='every candidate is decided: nobody is left hopeful')
+    ensures(ghost('nP') == 0, name='no transfer is left pending')
+    ensures(ghost('nW') == old(ghost('nW')), name='withdrawn candidates never change')
+    ensures(ghost('nE') >= E.electionProfile.nSeats, name='the seats are filled')
+    modifies_all(Candidate, 'state', 'pending', 'vote', 'tc', 'quotient')
+    modifies_all(Ballot, 'index', 'weight', 'residual')
+    modifies(E, 'quota', 'round', 'tx', 'va')
+    modifies_ghost('nH', 'nE', 'nD', 'nP', 'nlog', 'lasttag', 'lastmsg')
+
+
+@loops('droop.rules.qpq.Rule.count', anchor='while#1')
+def qpq_main_loop(self):
+    E = self.E
+    invariant(ghost('nH') + ghost('nE') >= E.electionProfile.nSeats)
+    invariant(ghost('nP') == 0)
+    invariant(E.round >= 0)
+    invariant(forall('ref:droop.election.Election.Ballot', lambda b: implies(is_ballot(b), and_(b.index >= 0, b.index <= seq_len(b.ranking)))))
+    variant((ghost('nH') + ghost('nE'), ite(restart, ghost('nH') + ghost('nE'), ghost('nH'))))
